@@ -517,6 +517,63 @@ func c05(c *core.Ctx) {
 		c.EndRule()
 	}
 
+	// ---------------------------------------------------------------- R10
+	if c.Rule("R10", "a client stream that declares the call failed on its own — an error it constructs in its receive path: too many responses, an undecodable message — cancels the call's context before it returns: nobody will receive from the stream again, so the other side's pending frame hand-over (the reply reader's send, the handler's SendMsg) has to be released, or a goroutine stays parked until the caller's context ends or a finalizer runs", 2) {
+		n := 0
+		for _, nt := range streamTypes(p, "ClientStream", "RecvMsg") {
+			for _, f := range methodFamily(p, nt, "RecvMsg") {
+				core.Instrs(f, func(in ssa.Instruction) {
+					call, ok := in.(*ssa.Call)
+					if !ok {
+						return
+					}
+					code, isCtor := core.StatusCtorCode(call)
+					if !isCtor || code == 0 {
+						return
+					}
+					n++
+					isCancel := func(x ssa.Instruction) bool {
+						cc := core.CallOf(x)
+						if cc == nil || cc.IsInvoke() || cc.StaticCallee() != nil {
+							return false
+						}
+						if _, isCall := x.(*ssa.Call); !isCall {
+							return false
+						}
+						return core.TypeStr(cc.Value.Type()) == "context.CancelFunc"
+					}
+					// a path on which the stream's terminal error was found already recorded needs no cancel: the
+					// reader has finished (or another branch cancelled) — the edge "errField != nil" is not followed
+					alreadyOver := func(b *ssa.BasicBlock, si int) bool {
+						iff, isIf := b.Instrs[len(b.Instrs)-1].(*ssa.If)
+						if !isIf {
+							return true
+						}
+						fc := core.CondFact(iff.Cond, si == 0)
+						if fc.Op == token.NEQ && core.IsNilConst(fc.Y) && core.IsErrorType(fc.X.Type()) {
+							if _, _, isF := core.FieldOf(fc.X); isF {
+								return false
+							}
+						}
+						return true
+					}
+					okAll := true
+					reach := core.Walk(core.After(call), isCancel, alreadyOver)
+					for _, r := range core.Returns(f) {
+						if reach[r] {
+							okAll = false
+						}
+					}
+					c.Check(okAll, fmt.Sprintf("%s:own-failure#%d:cancels-the-call", core.FuncName(f), n), call.Pos(), "every path from the constructed error to a return passes the call's CancelFunc", "the receive path constructs a terminal error (code "+fmt.Sprint(code)+") and returns without cancelling the call: the peer's pending frame hand-over is never taken, so a library goroutine (the HTTP reply reader / the in-process handler goroutine) stays blocked after the call is over for the caller")
+				})
+			}
+		}
+		if n < 2 {
+			c.Fail("client-streams:own-failures", token.NoPos, "ANCHOR-MISSING: expected the client streams' own terminal errors (>1 response on both transports), found %d", n)
+		}
+		c.EndRule()
+	}
+
 	// ---------------------------------------------------------------- R9 (shared)
 	// a header accessor that stays in its receiving state takes (and blocks for) another frame on every call: on a
 	// ping-pong stream the second Header() blocks for ever holding the receive lock (C20/R6)
